@@ -322,4 +322,25 @@ theorem Fld.mul_scalar_scalar [Mul K] (a b : Fld K) (hab : (a.size1 && b.size1) 
       rw [Bool.eq_false_iff]; intro hh; simp only [Bool.and_eq_true, decide_eq_true_eq] at hh; exact h hh
     simp [this, h]
 
+/-! ### embeddings under translation, sums under reordering -/
+
+theorem Extent.shift_inb (e : Extent) (d0 d1 r c : Int) : (e.shift d0 d1).inb r c = e.inb (r - d0) (c - d1) := by
+  rw [Bool.eq_iff_iff, Extent.inb_iff, Extent.inb_iff]; simp only [Extent.shift]; omega
+
+/-- a field moved by (d0, d1) embeds as the original embedding read at (r − d0, c − d1) -/
+theorem Fld.translate_emb [Zero K] (f : Fld K) (d0 d1 r c : Int) :
+    (f.translate d0 d1).emb r c = f.emb (r - d0) (c - d1) := by
+  have h1 : (f.translate d0 d1).emb r c = embAt (f.translate d0 d1).extent f.arr.get r c := rfl
+  have h2 : f.emb (r - d0) (c - d1) = embAt f.extent f.arr.get (r - d0) (c - d1) := rfl
+  rw [h1, h2, Fld.translate_extent]
+  unfold embAt
+  rw [Extent.shift_inb]
+  have e1 : r - (f.extent.shift d0 d1).rmin = r - d0 - f.extent.rmin := by simp only [Extent.shift]; omega
+  have e2 : c - (f.extent.shift d0 d1).cmin = c - d1 - f.extent.cmin := by simp only [Extent.shift]; omega
+  rw [e1, e2]
+
+theorem sumList_map [Add K] [Zero K] {α β} (l : List α) (g : α → β) (f : β → K) :
+    sumList (l.map g) f = sumList l (fun x => f (g x)) := by
+  unfold sumList; rw [List.foldl_map]
+
 end Lentil
